@@ -120,6 +120,29 @@ pub fn window_ok(order: &[usize], active: usize) -> bool {
 
 // a deadline that is hit is a violation here, so it is generous (a case takes microseconds); after a few
 // deadline violations the remaining cases of the run are skipped instead of waiting for each of them
+
+/// Joins two futures the way two separate tasks would run: each gets its own waker (FuturesUnordered
+/// polls a child only when that child's own waker was woken), `first` is polled first. A wake-up
+/// delivered to a stale waker is therefore not papered over by the other side's activity.
+async fn join_as_tasks<A, B>(first: impl std::future::Future<Output = A>, second: impl std::future::Future<Output = B>) -> (A, B) {
+    use futures::stream::FuturesUnordered;
+    enum E<A, B> {
+        A(A),
+        B(B),
+    }
+    let mut fu: FuturesUnordered<std::pin::Pin<Box<dyn std::future::Future<Output = E<A, B>> + '_>>> = FuturesUnordered::new();
+    fu.push(Box::pin(async { E::A(first.await) }));
+    fu.push(Box::pin(async { E::B(second.await) }));
+    let (mut a, mut b) = (None, None);
+    while let Some(x) = fu.next().await {
+        match x {
+            E::A(v) => a = Some(v),
+            E::B(v) => b = Some(v),
+        }
+    }
+    (a.unwrap(), b.unwrap())
+}
+
 const STEP_T: Duration = Duration::from_secs(15);
 static DEADLINES_HIT: std::sync::atomic::AtomicUsize = std::sync::atomic::AtomicUsize::new(0);
 
@@ -168,10 +191,10 @@ async fn chan_case<M: Pat, C: Context>(sctx: C, rctx: C, c: &Case13) -> Result<(
     };
     let both = async {
         if c.recv_first {
-            let (r, s) = futures::join!(recvs, sends);
+            let (r, s) = join_as_tasks(recvs, sends).await;
             (s, r)
         } else {
-            futures::join!(sends, recvs)
+            join_as_tasks(sends, recvs).await
         }
     };
     let (s, r) = tokio::time::timeout(STEP_T, both).await.map_err(|_| {
@@ -302,7 +325,7 @@ async fn repoll_case<M: Pat, C: Context>(sctx: C, rctx: C, k: usize, active: usi
         v
     };
     let sends = join_all((0..k).map(|i| { let tx = &tx; async move { tx.send(RecordId::from(i), val(i)).await } }));
-    let (got, s) = tokio::time::timeout(STEP_T, futures::future::join(recvs, sends)).await.map_err(|_| {
+    let (got, s) = tokio::time::timeout(STEP_T, join_as_tasks(recvs, sends)).await.map_err(|_| {
         DEADLINES_HIT.fetch_add(1, std::sync::atomic::Ordering::SeqCst);
         "a receive request polled before the data arrived was never woken when it did (deadlock)".to_string()
     })?;
